@@ -53,6 +53,8 @@ type FuncContract struct {
 	Orders         [][2]string // `order A#i B#j`: the statement containing call site A#i precedes the one containing B#j
 	Propagates     []string // `propagates G#n`: call sites whose failure must be reported by this function
 	PropagatesTags []string
+	FailsOnlyVia   bool     // `fails-only-through-calls`: the function has no failure of its own - it fails only on paths on which one of its calls failed
+	FailsOnlyTags  []string
 	File     string
 	Line     int
 	// `regexp <var>` blocks: a contract on a package-level compiled expression
@@ -305,6 +307,11 @@ func parseContractFile(path, pkgDir string) ([]*FuncContract, error) {
 			rest = reTag.ReplaceAllString(rest, "")
 			cur.Propagates = append(cur.Propagates, splitNames(rest)...)
 			cur.PropagatesTags = append(cur.PropagatesTags, tags...)
+		case "fails-only-through-calls":
+			cur.FailsOnlyVia = true
+			for _, m := range reTag.FindAllStringSubmatch(rest, -1) {
+				cur.FailsOnlyTags = append(cur.FailsOnlyTags, m[1])
+			}
 		case "lines":
 			cur.LinesPred = rest
 		case "accepts":
